@@ -9,9 +9,18 @@ macro_rules! cfg {
     }};
 }
 
+macro_rules! cfg_huge {
+    ($run:expr, $fam:ident, $n:literal, $z:ty) => {{
+        // the widest configurations of the quantifier (8192 bits): dense and sparse values, small plan
+        $run.explore(&t::$fam::u::<$n, $z>(), &plans::hugeify(plans::unary::<$fam::U<$n>>(Tier::Quick), usize::MAX, usize::MAX));
+        $run.explore(&t::$fam::i::<$n, $z>(), &plans::hugeify(plans::unary::<$fam::I<$n>>(Tier::Quick), usize::MAX, usize::MAX));
+    }};
+}
+
 fn main() {
     let mut run = Run::from_args("C05", "c05");
     vcore::core_configs!(cfg, run);
+    vcore::huge_configs!(cfg_huge, run);
     // digit counts with odd factors and several divisors (rotation by whole digits permutes the digit
     // array in gcd(d, N) cycles)
     // (the thorough list of core_configs contains these and more)
